@@ -1,50 +1,66 @@
 """Reference protocol of the record defragmenter (C07), written from the property statement.
-Every entry->exit path of each method must be one of these summaries and every summary must occur:
-(guards, actions, exit). MAX = 10 MiB, comparison `>=` on the saturating sum."""
+
+Every entry->exit path of each method, as a semantic summary
+    (decisions taken in order, parser invocations in order, final current_record_type, final buffer, exit)
+over the symbolic inputs of analysis/defrag_sem.py:
+    state   : current type T0 (None, or Some(CUR) when defragmentation is in progress), buffer B0
+    record  : type RT, data D
+    final type   "none" | ("some","CUR") (unchanged, in progress) | ("some","RT")
+    final buffer tuple of parts: ("B0",) unchanged, ("D",) replaced by the record, ("B0","D") appended, () emptied
+    exit    "Pass(result)" the one-shot parser's result unchanged, "Incomplete", "Error(K)", "Failure(K)", "Value(..)"
+The set of summaries the code yields must equal this set.  MAX = 10 MiB, refused with `>=` on a sum that cannot wrap."""
 MAX = 10 * 1024 * 1024
-TOO = "too_large[>=,%d,saturating_add]" % MAX
+TOO = "too_large[>=,%d]" % MAX
 ERRS = ["Err(Error,other)", "Err(Failure,other)"]
 COMPLETE = ["Err(Error,Complete)", "Err(Failure,Complete)"]
+IDLE, BUSY = "none", ("some", "CUR")
+SAME = ("B0",)
+
+
+def _oneshot(prefix):
+    """zero-copy attempt on the caller's record: Complete is reported as Incomplete, everything else passes; state untouched"""
+    P = []
+    for oc in ["Ok", "Incomplete"] + ERRS:
+        P.append((prefix + ("parse(data)=" + oc,), ("Parse(data)",), IDLE, SAME, "Pass(result)"))
+    for oc in COMPLETE:
+        P.append((prefix + ("parse(data)=" + oc,), ("Parse(data)",), IDLE, SAME, "Incomplete"))
+    return P
+
 
 def nocopy():
-    P = [(("in_progress",), (), "Failure(NonEmpty)")]
-    base = ("!in_progress",)
-    P.append((base + ("parse(data)=Ok",), ("Parse(data)",), "Pass(result)"))
-    P.append((base + ("parse(data)=Incomplete",), ("Parse(data)",), "Pass(result)"))
-    for c in COMPLETE:
-        P.append((base + ("parse(data)=" + c,), ("Parse(data)",), "Incomplete"))
-    for c in ERRS:
-        P.append((base + ("parse(data)=" + c,), ("Parse(data)",), "Pass(result)"))
-    return P
+    return [(("in_progress",), (), BUSY, SAME, "Failure(NonEmpty)")] + _oneshot(("!in_progress",))
+
 
 def parse_record():
     P = []
-    first = ("!in_progress",)
-    P.append((first + ("type in {Alert,ChangeCipherSpec}",), (), "Delegate(nocopy)"))
-    f2 = first + ("!type in {Alert,ChangeCipherSpec}",)
-    P.append((f2 + ("parse(data)=Ok",), ("Parse(data)",), "Ok(pass)"))
-    buffering = ("Parse(data)", "SetType(Some(record.type))", "Clear", "Extend(record.data)")
-    for c in ["Incomplete"] + COMPLETE:
-        P.append((f2 + ("parse(data)=" + c,), buffering, "Incomplete"))
-    for c in ERRS:
-        P.append((f2 + ("parse(data)=" + c,), ("Parse(data)",), "Pass(result)"))
-    cont = ("in_progress",)
-    P.append((cont + ("type_mismatch",), (), "Error(Tag)"))
-    c2 = cont + ("!type_mismatch",)
-    P.append((c2 + (TOO,), (), "Error(TooLarge)"))
+    unfrag = "type in {Alert,ChangeCipherSpec}"
+    # first record of a message: Alert / ChangeCipherSpec cannot be fragmented (same as parse_record_nocopy)
+    P += _oneshot(("!in_progress", unfrag))
+    f2 = ("!in_progress", "!" + unfrag)
+    for oc in ["Ok"] + ERRS:
+        P.append((f2 + ("parse(data)=" + oc,), ("Parse(data)",), IDLE, SAME, "Pass(result)"))
+    # a fragment: remember the type, replace the buffer by this record's data
+    for oc in ["Incomplete"] + COMPLETE:
+        P.append((f2 + ("parse(data)=" + oc,), ("Parse(data)",), ("some", "RT"), ("D",), "Incomplete"))
+    # continuation
+    P.append((("in_progress", "type_mismatch"), (), BUSY, SAME, "Error(Tag)"))
+    c2 = ("in_progress", "!type_mismatch")
+    P.append((c2 + (TOO,), (), BUSY, SAME, "Error(TooLarge)"))
     c3 = c2 + ("!" + TOO,)
-    pre = ("Extend(record.data)", "Parse(buf)")
-    P.append((c3 + ("parse(buf)=Ok",), pre + ("SetType(None)",), "Ok(pass)"))
-    for c in COMPLETE:
-        P.append((c3 + ("parse(buf)=" + c,), pre, "Incomplete"))
-    for c in ["Incomplete"] + ERRS:
-        P.append((c3 + ("parse(buf)=" + c,), pre, "Pass(result)"))
+    P.append((c3 + ("parse(buf)=Ok",), ("Parse(buf)",), IDLE, ("B0", "D"), "Pass(result)"))
+    for oc in COMPLETE:
+        P.append((c3 + ("parse(buf)=" + oc,), ("Parse(buf)",), BUSY, ("B0", "D"), "Incomplete"))
+    for oc in ["Incomplete"] + ERRS:
+        P.append((c3 + ("parse(buf)=" + oc,), ("Parse(buf)",), BUSY, ("B0", "D"), "Pass(result)"))
     return P
 
+
 def reset():
-    return [((), ("ResetDefault",), "Value(())")]
+    return [((), (), IDLE, (), "Value(())")]
+
 
 def defrag_in_progress():
-    return [((), (), "Value(current_record_type.is_some())")]
+    return [(("in_progress",), (), BUSY, SAME, "Value(true)"), (("!in_progress",), (), IDLE, SAME, "Value(false)")]
+
 
 METHODS = {"parse_record_nocopy": nocopy, "parse_record": parse_record, "reset": reset, "defrag_in_progress": defrag_in_progress}
